@@ -342,6 +342,16 @@ func (c *Ctx) privateHelperOf(f *types.Func, allowed func(name string) bool, dep
 	return strings.Join(via, ", "), true
 }
 
+// servesPermitted: the function named fname is a private helper (see
+// privateHelperOf) of functions accepted by has.
+func (c *Ctx) servesPermitted(fname string, has func(string) bool) (string, bool) {
+	fn, _, _ := c.LookupFunc(fname)
+	if fn == nil {
+		return "", false
+	}
+	return c.privateHelperOf(fn, has, 0)
+}
+
 // withHelpers returns u followed by its private helpers: the unexported
 // same-package functions (and methods) it calls, directly or through another
 // such helper (depth 3), that are never used as values.  Rules that look for a
